@@ -318,7 +318,7 @@ def t_alloc_before_if_else(k):
         ["if", cond, [["assign", "x", ["2"], "y[0]"]], [["assign", "x", ["3"], "y[1]"], ["reduce", "x", ["1"], "y[2]"]]],
         # statements nested deeper than one level inside the branches of an if (extract_subproc
         # derives the callee's assertions from the enclosing conditions)
-        ["if", cond, [["for", "j", "0", "2", [["assign", "x", ["j"], "y[0] + 1.0"]], "seq"]], [["for", "j", "0", "2", [["reduce", "x", ["j + 2"], "y[1]"]], "seq"]]],
+        ["if", cond, [["for", "j", "0", "2", [["assign", "x", ["(j + n + m) % 4"], "y[0] + 1.0"]], "seq"]], [["for", "j", "0", "2", [["reduce", "x", ["(j + n + m) % 4"], "y[1]"]], "seq"]]],
         ["for", "i", "0", "n", [["if", cond, [["reduce", "y", ["0"], "x[i % 4]"]], [["reduce", "y", ["1"], "2.0"], ["reduce", "y", ["2"], "3.0"]]]], "seq"],
         ["assign", "y", ["3"], "y[3] + y[0]"],
     ]
